@@ -227,6 +227,15 @@ def login_case(ctx, case):
                 raise IgnorePacket
             conn.register_packet_listener(
                 take, clientbound.login.PluginRequestPacket, early=True)
+        if case.get('tidy'):
+            # a listener that tidies up when the server says no: it closes
+            # the connection itself, early, WITHOUT claiming the packet
+            # (no IgnorePacket) - the refusal is still reported as an error
+            def tidy(p):
+                conn.disconnect(immediate=case['tidy'] == 'immediate')
+            conn.register_packet_listener(
+                tidy, clientbound.login.DisconnectPacket, early=True)
+            ctx.label('early_listener_disconnects_on_login_disconnect')
         conn.register_packet_listener(
             lambda p: reactor_seen.append(type(conn.reactor).__name__),
             clientbound.play.KeepAlivePacket)
@@ -548,6 +557,7 @@ def case_strategy(versions):
             'terminal': terminal_strategy(), 'token': st.booleans(),
             'join_fails': st.sampled_from([None, None, None, [503], [500],
                                            [403], [None], [502, 503]]),
+            'tidy': st.sampled_from([None, None, 'plain', 'immediate']),
             'takeover': st.sampled_from([False, False, True, 'explicit_empty',
                                          'short', 'short_empty', 'echo',
                                          'echo']),
@@ -595,6 +605,13 @@ def t_fixed(ctx, versions):
                         'version': v, 'steps': sc, 'terminal': term,
                         'token': token, 'takeover': take, 'plan': 'whole',
                         's2c_compress': [True, False]})
+                if term[0] == 'disconnect':
+                    for tidy in ('plain', 'immediate'):
+                        login_case(ctx, {
+                            'version': v, 'steps': sc, 'terminal': term,
+                            'token': False, 'takeover': False,
+                            'plan': 'whole', 's2c_compress': [True, False],
+                            'tidy': tidy})
                 k += 1
                 login_case(ctx, {
                     'version': v, 'steps': sc, 'terminal': term,
